@@ -475,6 +475,45 @@ TCtrEncrypt ==
            /\ NoHeap(ev)
     /\ UNCHANGED <<env, ks, tks, mks, par>>
 
+(* A request of gib * 2^30 + rem bytes (lengths beyond 32 bits; the numbers *)
+(* are split because TLC integers are 32-bit).  The input is all-zero, so   *)
+(* the output IS the key stream; the trace carries whole blocks of it at    *)
+(* block indices chosen by the scenario (first, around the 4 GiB boundary,  *)
+(* last) and the final bytes.  Block i of the request is stream block       *)
+(* i + (j div bs) from the counter, read from byte j on.                    *)
+HugeBlocks(kind, gib, rem) == gib * ((1024 * 1024 * 1024) \div BS(kind)) + rem \div BS(kind)
+
+(* len <= bs stream bytes starting at byte `byte` of stream block `block` (counted from c) *)
+StreamAt(kind, key, rr, c, w, block, byte, len) ==
+    LET two == KeyEnc(kind, key, rr, AddBEW(256, c, block, w)) \o
+               KeyEnc(kind, key, rr, AddBEW(256, c, block + 1, w))
+    IN  SubSeq(two, byte + 1, byte + len)
+
+TCtrHuge ==
+    /\ IsEvent("ctr_huge")
+    /\ LET ev == Ev  kind == ev.k  o == ev.o  bs == BS(kind)
+           valid == CtrLive(kind, o)
+       IN  /\ Chk("ctr_huge ret", IF valid THEN 1 ELSE 0, ev.ret)
+           /\ IF valid
+              THEN LET st   == ctr[kind][o]
+                       c    == st.pos[1]
+                       j    == st.pos[2]
+                       nblk == HugeBlocks(kind, ev.gib, ev.rem)     \* whole blocks in the request
+                       r    == ev.rem % bs                          \* total = nblk * bs + r
+                       \* the last ev.tail (<= bs) bytes start at stream offset j + nblk*bs + r - tail
+                       q    == j + r - ev.tail + bs                 \* >= 0
+                   IN  /\ \A x \in 1..Len(ev.samples) :
+                              Chk("ctr_huge key stream block",
+                                  StreamAt(kind, st.key, RR(ev), c, st.csz, ev.samples[x].i, j, bs), ev.samples[x].b)
+                       /\ ev.tail > 0 =>
+                              Chk("ctr_huge last bytes",
+                                  StreamAt(kind, st.key, RR(ev), c, st.csz, nblk - 1 + q \div bs, q % bs, ev.tail), ev.tailb)
+                       /\ ctr' = [ctr EXCEPT ![kind][o].pos =
+                                      << AddBEW(256, c, nblk + (j + r) \div bs, st.csz), (j + r) % bs >>]
+              ELSE UNCHANGED ctr
+           /\ NoHeap(ev)
+    /\ UNCHANGED <<env, ks, tks, mks, par>>
+
 ----------------------------------------------------------------------------
 (* Parallel ECB objects (C07, C03, C13)                                    *)
 
@@ -559,6 +598,20 @@ ParCrypt(name, enc) ==
            /\ NoHeap(ev)
     /\ UNCHANGED <<env, ks, tks, mks, ctr, par>>
 
+(* a request beyond 32 bits of length in which every input block (and every tweak) is the   *)
+(* same value: every output block is the single-block result; ev.diff counts the others      *)
+TParHuge ==
+    /\ IsEvent("par_huge")
+    /\ LET ev == Ev  kind == ev.k  o == ev.o
+           valid == ParLive(kind, o) /\ ev.rem % BS(kind) = 0
+       IN  /\ Chk("par_huge ret", IF valid THEN 1 ELSE 0, ev.ret)
+           /\ valid => /\ Chk("par_huge first output block",
+                               ParMap(kind, par[kind][o].key, RR(ev), ev.enc = 1, ev.in, BS(kind),
+                                      IF Has(ev, "tweak") THEN ev.tweak ELSE <<>>), ev.out0)
+                        /\ Chk("par_huge blocks that differ from the first", 0, ev.diff)
+           /\ NoHeap(ev)
+    /\ UNCHANGED <<env, ks, tks, mks, ctr, par>>
+
 TParEncrypt == ParCrypt("par_encrypt", TRUE)
 TParDecrypt == ParCrypt("par_decrypt", FALSE)
 TParCryptM  == ParCrypt("par_crypt", TRUE)
@@ -569,7 +622,7 @@ TraceNext ==
     \/ TKsSetKey \/ TKsSetKeyInner \/ TKsSetTweakedKey \/ TKsSetTweak \/ TKsEnc \/ TKsDec
     \/ TMkSetKey \/ TMkSetTweak \/ TMkSwap \/ TMkCrypt \/ TMkCryptTw
     \/ TCtrInit \/ TCtrCleanup \/ TCtrSetKey \/ TCtrSetTweakedKey \/ TCtrSetTweak
-    \/ TCtrSetCounter \/ TCtrEncrypt
+    \/ TCtrSetCounter \/ TCtrEncrypt \/ TCtrHuge \/ TParHuge
     \/ TParInit \/ TParCleanup \/ TParSetKey \/ TParSwap
     \/ TParEncrypt \/ TParDecrypt \/ TParCryptM
 
